@@ -17,6 +17,9 @@ RUST_KEYWORDS = {'as', 'break', 'const', 'continue', 'crate', 'else', 'enum', 'e
 NOT_RAW = {'self', 'Self', 'super', 'crate'}
 
 # Ident -> String conversions in zlink-macros that never reach the wire / an IDL name (function -> reason)
+# owners of identifiers that name types / generic parameters, never members on the wire (decided from the resolved receiver, not from the
+# function the conversion is written in)
+TYPE_LEVEL_IDENT_OWNERS = {'syn::TypeParam', 'syn::PathSegment', 'syn::LifetimeParam', 'syn::ConstParam', 'syn::Lifetime', 'syn::generics::TypeParam', 'syn::path::PathSegment'}
 IDENT_EXEMPT = {
     'utils::is_option_type': 'compares path segments of a type with `Option`',
     'proxy::method_impl::generate_method_params': 'generic parameter names, compared with each other only',
@@ -331,8 +334,9 @@ def check_idents(fx, rep):
             key = '%s|ident-to-string|%d' % (fn_path, ord_)
             if unrawed:
                 rep.ok('R15.4', key, C.where(body, blk), 'identifier is unraw\'d before it is stringified')
-            elif fn_path in IDENT_EXEMPT:
-                rep.ok('R15.4', key, C.where(body, blk), 'exempt: %s' % IDENT_EXEMPT[fn_path], nontrivial=False)
+            elif tr.get('kind') == 'place' and tr.get('fields') and tr['fields'][-1][0] in TYPE_LEVEL_IDENT_OWNERS:
+                rep.ok('R15.4', key, C.where(body, blk), 'not a wire name: the identifier of a %s (a generic parameter / a path segment of a type), compared or re-emitted as a type' %
+                       tr['fields'][-1][0], nontrivial=False)
             else:
                 rep.bad('R15.4', key, C.where(body, blk),
                         'an identifier is turned into a string without IdentExt::unraw() in %s: for a raw identifier (`r#type`, needed for names that are Rust keywords) '
